@@ -362,12 +362,19 @@ def run(rep, tier):
         'is parsed' if not early else 'is answered with an empty Data: Data("top") and Data(42) written by toJSON ("top", 42) come back empty'))
 
     # ---- R15.10 the tree built from arbitrary text has bounded depth
-    rep.rule('R15.10', 'clean failure on deep nesting: Data is a recursive type (destroyed, copied and printed recursively), so the builder of a Data tree from text bounds its depth - every push on the stack of open containers in Data::fromJSON happens under a comparison of a stack size with a constant')
+    nesting_bound(rep, fb, 'R15.10')
+
+
+def nesting_bound(rep, fb, rule='R15.10'):
+    """Data::fromJSON bounds the depth of the tree it builds (shared by C15 R15.10 and C07 R07.12)"""
+    from .C08 import edge_dominates
+    fj = fb.fn('uscxml::Data::fromJSON')
+    rep.rule(rule, 'clean failure on deep nesting: Data is a recursive type (destroyed, copied and printed recursively), so the builder of a Data tree from text bounds its depth - every push on the stack of open containers in Data::fromJSON happens under a comparison of a stack size with a constant')
     g10 = cfgm.CFG(fj)
     # the stack of open containers: the std::list of tokens (one entry per '[' / '{' not yet closed)
     pushes = [n for n in fj.walk() if n['k'] == 'CXXMemberCallExpr' and n.get('callee', {}).get('q', '').split('::')[-1] in ('push_back', 'emplace_back', 'push_front')
               and 'jsmntok' in n.get('callee', {}).get('q', '') and n['id'] in g10.pos]
-    rep.minimum('R15.10', len(pushes), 1, 'pushes on the open-container stack in Data::fromJSON')
+    rep.minimum(rule, len(pushes), 1, 'pushes on the open-container stack in Data::fromJSON')
     def size_vs_const(cn):
         for x in sub(cn):
             if x.get('op') in ('<', '<=', '>', '>=') and x['k'] in ('BinaryOperator', 'CXXOperatorCallExpr') and len(x.get('c', [])) >= 2:
@@ -385,5 +392,5 @@ def run(rep, tier):
                 continue
             if edge_dominates(g10, bid, True, tb) or edge_dominates(g10, bid, False, tb):
                 ok = True
-        rep.check(ok, 'R15.10', 'fromJSON|nesting bound', locstr(n), 'an open container is pushed %s' % (
+        rep.check(ok, rule, 'fromJSON|nesting bound', locstr(n), 'an open container is pushed %s' % (
             'only below a constant nesting depth' if ok else 'WITHOUT any bound on the nesting: 200000 `[` followed by 200000 `]` parse, and the recursive destructor of the result overflows the stack (SIGSEGV)'))
